@@ -1,1 +1,397 @@
+// ---------------------------------------------------------------------------
+// Property theorems over the cycle oracle.  handle_commands is proved (above) to
+// compute exactly cy_final_act / cy_out for whatever batch a cycle receives, so
+// these hold for the real collector for every batch and every history of batches.
+// ---------------------------------------------------------------------------
 
+// ---- which traces are retained
+pub proof fn lemma_starts_dom(a: ActMap, ids: Seq<usize>)
+    ensures ph_starts(a, ids).dom() =~= a.dom() + ids.to_set(),
+    decreases ids.len(),
+{
+    if ids.len() > 0 {
+        lemma_starts_dom(a, ids.drop_last());
+        assert(ids.to_set() =~= ids.drop_last().to_set().insert(ids.last())) by {
+            assert forall|x: usize| ids.to_set().contains(x) <==> ids.drop_last().to_set().insert(ids.last()).contains(x) by {
+                if ids.contains(x) {
+                    let i = choose|i: int| 0 <= i < ids.len() && ids[i] == x;
+                    if i < ids.len() - 1 { assert(ids.drop_last()[i] == x); }
+                }
+                if ids.drop_last().contains(x) {
+                    let i = choose|i: int| 0 <= i < ids.drop_last().len() && ids.drop_last()[i] == x;
+                    assert(ids[i] == x);
+                }
+            }
+        }
+    } else {
+        assert(ids.to_set() =~= Set::<usize>::empty());
+    }
+}
+
+pub proof fn lemma_remove_dom(f: spec_fn(ActMap, Seq<usize>) -> ActMap, a: ActMap, ids: Seq<usize>)
+    requires
+        forall|x: ActMap, s: Seq<usize>| #[trigger] f(x, s) == (if s.len() == 0 { x } else { f(x, s.drop_last()).remove(s.last()) }),
+    ensures
+        f(a, ids).dom() =~= a.dom() - ids.to_set(),
+        forall|k: usize| f(a, ids).contains_key(k) ==> #[trigger] f(a, ids)[k] == a[k],
+    decreases ids.len(),
+{
+    if ids.len() > 0 {
+        lemma_remove_dom(f, a, ids.drop_last());
+        assert forall|x: usize| ids.to_set().contains(x) <==> (ids.drop_last().to_set().contains(x) || x == ids.last()) by {
+            if ids.contains(x) {
+                let i = choose|i: int| 0 <= i < ids.len() && ids[i] == x;
+                if i < ids.len() - 1 { assert(ids.drop_last()[i] == x); }
+            }
+            if ids.drop_last().contains(x) {
+                let i = choose|i: int| 0 <= i < ids.drop_last().len() && ids.drop_last()[i] == x;
+                assert(ids[i] == x);
+            }
+            if x == ids.last() { assert(ids[ids.len() - 1] == x); }
+        }
+    } else {
+        assert(ids.to_set() =~= Set::<usize>::empty());
+    }
+}
+
+pub proof fn lemma_drops_dom(a: ActMap, ids: Seq<usize>)
+    ensures
+        ph_drops(a, ids).dom() =~= a.dom() - ids.to_set(),
+        forall|k: usize| ph_drops(a, ids).contains_key(k) ==> #[trigger] ph_drops(a, ids)[k] == a[k],
+{
+    lemma_remove_dom(|x: ActMap, s: Seq<usize>| ph_drops(x, s), a, ids);
+}
+
+pub proof fn lemma_commits_dom(a: ActMap, ids: Seq<usize>)
+    ensures
+        ph_commits_act(a, ids).dom() =~= a.dom() - ids.to_set(),
+        forall|k: usize| ph_commits_act(a, ids).contains_key(k) ==> #[trigger] ph_commits_act(a, ids)[k] == a[k],
+{
+    lemma_remove_dom(|x: ActMap, s: Seq<usize>| ph_commits_act(x, s), a, ids);
+}
+
+pub proof fn lemma_items_dom(a: ActMap, set: SpanSet, items: Seq<CollectTokenItem>)
+    ensures items_act(a, set, items).dom() =~= a.dom(),
+    decreases items.len(),
+{
+    if items.len() > 0 { lemma_items_dom(a, set, items.drop_last()); }
+}
+
+pub proof fn lemma_submits_dom(a: ActMap, subs: Seq<SubmitSpans>)
+    ensures ph_submits_act(a, subs).dom() =~= a.dom(),
+    decreases subs.len(),
+{
+    if subs.len() > 0 {
+        lemma_submits_dom(a, subs.drop_last());
+        lemma_items_dom(ph_submits_act(a, subs.drop_last()), subs.last().spans, subs.last().collect_token@);
+    }
+}
+
+pub proof fn lemma_sweep_dom(a: ActMap, ks: Seq<usize>, anchor: Anchor)
+    ensures ph_sweep_act(a, ks, anchor).dom() =~= a.dom(),
+    decreases ks.len(),
+{
+    if ks.len() > 0 { lemma_sweep_dom(a, ks.drop_last(), anchor); }
+}
+
+// C08: after a cycle the collector holds an entry exactly for the traces that were active or
+// started and were neither committed nor (cancelable) dropped in this batch.
+pub proof fn thm_c08_retained_traces(a: ActMap, b: Batch, cancelable: bool, ks: Seq<usize>, anchor: Anchor)
+    ensures
+        cy_final_act(a, b, cancelable, ks, anchor).dom() =~=
+            (if cancelable { (a.dom() + b.starts.to_set()) - b.drops.to_set() } else { a.dom() + b.starts.to_set() }) - b.commits.to_set(),
+{
+    lemma_starts_dom(a, b.starts);
+    lemma_drops_dom(ph_starts(a, b.starts), b.drops);
+    lemma_submits_dom(cy_act2(a, b, cancelable), b.submits);
+    lemma_commits_dom(cy_act3(a, b, cancelable), b.commits);
+    lemma_sweep_dom(cy_act4(a, b, cancelable), ks, anchor);
+}
+
+// C08: a trace whose root finished (commit) or was cancelled (drop, cancelable) in this batch is
+// not retained
+pub proof fn thm_c08_finished_traces_not_retained(a: ActMap, b: Batch, cancelable: bool, ks: Seq<usize>, anchor: Anchor, c: usize)
+    requires b.commits.contains(c) || (cancelable && b.drops.contains(c)),
+    ensures !cy_final_act(a, b, cancelable, ks, anchor).contains_key(c),
+{
+    thm_c08_retained_traces(a, b, cancelable, ks, anchor);
+}
+
+// C01/C08 (default configuration): whatever a cycle buffered it also delivers -- no span
+// collection is left in any active trace at the end of the cycle
+pub proof fn lemma_sweep_empties(a: ActMap, ks: Seq<usize>, anchor: Anchor, k: usize)
+    requires ks.contains(k), a.contains_key(k),
+    ensures ph_sweep_act(a, ks, anchor)[k].colls =~= Seq::<CollV>::empty(),
+    decreases ks.len(),
+{
+    lemma_sweep_dom(a, ks.drop_last(), anchor);
+    if ks.last() == k {
+    } else {
+        let i = choose|i: int| 0 <= i < ks.len() && ks[i] == k;
+        assert(ks.drop_last()[i] == k);
+        lemma_sweep_empties(a, ks.drop_last(), anchor, k);
+    }
+}
+
+pub proof fn thm_c01_default_mode_leaves_nothing_buffered(a: ActMap, b: Batch, ks: Seq<usize>, anchor: Anchor, k: usize)
+    requires keys_ok(ks, cy_act4(a, b, false)), cy_final_act(a, b, false, ks, anchor).contains_key(k),
+    ensures cy_final_act(a, b, false, ks, anchor)[k].colls =~= Seq::<CollV>::empty(),
+{
+    lemma_sweep_dom(cy_act4(a, b, false), ks, anchor);
+    assert(ks.to_set().contains(k));
+    lemma_sweep_empties(cy_act4(a, b, false), ks, anchor, k);
+}
+
+// ---- C03: in cancelable mode nothing is reported except what a commit of this batch releases
+pub proof fn lemma_items_stale_cancelable(a: ActMap, st: Seq<CollV>, set: SpanSet, items: Seq<CollectTokenItem>)
+    ensures items_stale(a, st, set, items, true) == st,
+    decreases items.len(),
+{
+    if items.len() > 0 { lemma_items_stale_cancelable(a, st, set, items.drop_last()); }
+}
+
+pub proof fn lemma_submits_stale_cancelable(a: ActMap, st: Seq<CollV>, subs: Seq<SubmitSpans>)
+    ensures ph_submits_stale(a, st, subs, true) == st,
+    decreases subs.len(),
+{
+    if subs.len() > 0 {
+        lemma_submits_stale_cancelable(a, st, subs.drop_last());
+        lemma_items_stale_cancelable(ph_submits_act(a, subs.drop_last()), st, subs.last().spans, subs.last().collect_token@);
+    }
+}
+
+pub proof fn thm_c03_cancelable_reports_only_committed_traces(a: ActMap, b: Batch, ks: Seq<usize>, anchor: Anchor)
+    ensures cy_out(a, b, true, ks, anchor) =~= ph_commits_out(cy_act3(a, b, true), b.commits, anchor),
+{
+    lemma_submits_stale_cancelable(cy_act2(a, b, true), Seq::empty(), b.submits);
+    assert(ph_stale_out(Seq::<CollV>::empty(), anchor) =~= Seq::<RecV>::empty());
+}
+
+// C03/C04: a trace that is not active when a submission for it arrives gets nothing buffered and
+// (cancelable) nothing delivered: late spans of a finished or cancelled trace are discarded
+pub proof fn thm_c03_late_submission_discarded(a: ActMap, st: Seq<CollV>, set: SpanSet, item: CollectTokenItem)
+    requires !a.contains_key(item.collect_id),
+    ensures item_act(a, set, item) == a, item_stale(a, st, set, item, true) == st,
+{}
+
+// ---- C04
+// cancelable: a trace dropped in this batch contributes nothing to the report of this batch
+pub proof fn lemma_commit_out_absent(a: ActMap, ids: Seq<usize>, anchor: Anchor, c: usize)
+    requires !a.contains_key(c),
+    ensures forall|i: int| 0 <= i < ids.len() && ids[i] == c ==> #[trigger] commit_out(ph_commits_act(a, ids.take(i)), ids[i], anchor) =~= Seq::<RecV>::empty(),
+{
+    assert forall|i: int| 0 <= i < ids.len() && ids[i] == c implies #[trigger] commit_out(ph_commits_act(a, ids.take(i)), ids[i], anchor) =~= Seq::<RecV>::empty() by {
+        lemma_commits_dom(a, ids.take(i));
+    }
+}
+
+pub proof fn thm_c04_cancelled_trace_is_silent(a: ActMap, b: Batch, anchor: Anchor, c: usize)
+    requires b.drops.contains(c),
+    ensures
+        !cy_act3(a, b, true).contains_key(c),
+        forall|i: int| 0 <= i < b.commits.len() && b.commits[i] == c ==>
+            #[trigger] commit_out(ph_commits_act(cy_act3(a, b, true), b.commits.take(i)), b.commits[i], anchor) =~= Seq::<RecV>::empty(),
+{
+    lemma_starts_dom(a, b.starts);
+    lemma_drops_dom(ph_starts(a, b.starts), b.drops);
+    lemma_submits_dom(cy_act2(a, b, true), b.submits);
+    lemma_commit_out_absent(cy_act3(a, b, true), b.commits, anchor, c);
+}
+
+// cancelable: dropping c does not disturb what is buffered for any other trace
+pub proof fn thm_c04_other_traces_unaffected(a: ActMap, ids: Seq<usize>, k: usize)
+    requires a.contains_key(k), !ids.contains(k),
+    ensures ph_drops(a, ids).contains_key(k), ph_drops(a, ids)[k] == a[k],
+{
+    lemma_drops_dom(a, ids);
+}
+
+// default configuration: cancel() changes nothing about what is delivered or retained
+pub proof fn thm_c04_cancel_is_noop_in_default_configuration(a: ActMap, b: Batch, drops2: Seq<usize>, ks: Seq<usize>, anchor: Anchor)
+    ensures
+        cy_out(a, b, false, ks, anchor) == cy_out(a, Batch { drops: drops2, ..b }, false, ks, anchor),
+        cy_final_act(a, b, false, ks, anchor) == cy_final_act(a, Batch { drops: drops2, ..b }, false, ks, anchor),
+{}
+
+// ---------------------------------------------------------------------------
+// Record-level theorems (C01 exactly once, C02 identity/parents, C06 attachments, C17 copies,
+// C18 times) over amend / mount.
+// ---------------------------------------------------------------------------
+pub open spec fn span_count(spans: Seq<RawSpan>) -> nat
+    decreases spans.len(),
+{
+    if spans.len() == 0 { 0 } else { span_count(spans.drop_last()) + (if spans.last().raw_kind == RawKind::Span { 1nat } else { 0nat }) }
+}
+
+// C01: a set of local spans yields exactly one record per recorded span (events / property
+// carriers yield none), in recording order
+pub proof fn thm_c01_one_record_per_local_span(spans: Seq<RawSpan>, end: Instant, t: TraceId, p: SpanId, a: Anchor)
+    ensures amend_local_recs(spans, end, t, p, a).len() == span_count(spans),
+    decreases spans.len(),
+{
+    if spans.len() > 0 { thm_c01_one_record_per_local_span(spans.drop_last(), end, t, p, a); }
+}
+
+// C01/C06: mounting attachments neither drops, duplicates nor reorders records and leaves their
+// identity and times alone
+pub open spec fn same_identity(x: RecV, y: RecV) -> bool {
+    x.trace_id == y.trace_id && x.span_id == y.span_id && x.parent_id == y.parent_id
+        && x.begin == y.begin && x.duration == y.duration && x.name == y.name
+}
+
+pub proof fn lemma_attach_identity(r: RecV, items: Seq<DangV>)
+    ensures same_identity(attach(r, items), r),
+    decreases items.len(),
+{
+    if items.len() > 0 { lemma_attach_identity(r, items.drop_last()); }
+}
+
+pub proof fn thm_c01_mount_keeps_every_record_once(recs: Seq<RecV>, d: DMap)
+    ensures
+        mount_recs(recs, d).len() == recs.len(),
+        forall|i: int| 0 <= i < recs.len() ==> same_identity(#[trigger] mount_recs(recs, d)[i], recs[i]),
+    decreases recs.len(),
+{
+    if recs.len() > 0 {
+        thm_c01_mount_keeps_every_record_once(recs.drop_last(), d);
+        let dd = mount_dm(recs.drop_last(), d);
+        if dd.contains_key(recs.last().span_id) { lemma_attach_identity(recs.last(), dd[recs.last().span_id]); }
+        assert forall|i: int| 0 <= i < recs.len() implies same_identity(#[trigger] mount_recs(recs, d)[i], recs[i]) by {
+            if i < recs.len() - 1 {
+                assert(mount_recs(recs, d)[i] == mount_recs(recs.drop_last(), d)[i]);
+                assert(recs.drop_last()[i] == recs[i]);
+            }
+        }
+    }
+}
+
+// C02: every record of a local set carries the trace id of the parent item it is delivered under;
+// a span recorded with parent 0 (root of the set) gets the item's parent, any other keeps its own
+pub open spec fn nth_span(spans: Seq<RawSpan>, n: nat) -> RawSpan
+    recommends n < span_count(spans),
+    decreases spans.len(),
+{
+    if spans.len() == 0 { arbitrary() }
+    else if spans.last().raw_kind == RawKind::Span && span_count(spans.drop_last()) == n { spans.last() }
+    else { nth_span(spans.drop_last(), n) }
+}
+
+pub proof fn thm_c02_local_records_identify_trace_and_parent(spans: Seq<RawSpan>, end: Instant, t: TraceId, p: SpanId, a: Anchor, n: nat)
+    requires n < span_count(spans),
+    ensures
+        amend_local_recs(spans, end, t, p, a).len() == span_count(spans),
+        amend_local_recs(spans, end, t, p, a)[n as int] == recv_of(nth_span(spans, n), local_end(nth_span(spans, n), end), t, amended_parent(nth_span(spans, n), p), a),
+        nth_span(spans, n).raw_kind == RawKind::Span,
+    decreases spans.len(),
+{
+    thm_c01_one_record_per_local_span(spans, end, t, p, a);
+    if spans.len() > 0 {
+        thm_c01_one_record_per_local_span(spans.drop_last(), end, t, p, a);
+        if !(spans.last().raw_kind == RawKind::Span && span_count(spans.drop_last()) == n) {
+            thm_c02_local_records_identify_trace_and_parent(spans.drop_last(), end, t, p, a, n);
+        }
+    }
+}
+
+// C17: the same captured set delivered under two parents gives two record sequences that differ
+// only in the trace id and in the parent id of the set's roots
+pub proof fn thm_c17_copies_are_identical_subtrees(spans: Seq<RawSpan>, end: Instant, t1: TraceId, p1: SpanId, t2: TraceId, p2: SpanId, a: Anchor, i: int)
+    requires 0 <= i < amend_local_recs(spans, end, t1, p1, a).len(),
+    ensures
+        amend_local_recs(spans, end, t2, p2, a).len() == amend_local_recs(spans, end, t1, p1, a).len(),
+        ({
+            let x = amend_local_recs(spans, end, t1, p1, a)[i];
+            let y = amend_local_recs(spans, end, t2, p2, a)[i];
+            &&& x.span_id == y.span_id && x.name == y.name && x.properties == y.properties && x.events == y.events
+            &&& x.begin == y.begin && x.duration == y.duration
+            &&& x.trace_id == t1 && y.trace_id == t2
+            &&& (x.parent_id == y.parent_id || (x.parent_id == p1 && y.parent_id == p2))
+        }),
+    decreases spans.len(),
+{
+    thm_c01_one_record_per_local_span(spans, end, t1, p1, a);
+    thm_c01_one_record_per_local_span(spans, end, t2, p2, a);
+    if spans.len() > 0 {
+        thm_c01_one_record_per_local_span(spans.drop_last(), end, t1, p1, a);
+        thm_c01_one_record_per_local_span(spans.drop_last(), end, t2, p2, a);
+        if i < amend_local_recs(spans.drop_last(), end, t1, p1, a).len() {
+            thm_c17_copies_are_identical_subtrees(spans.drop_last(), end, t1, p1, t2, p2, a, i);
+        }
+    }
+}
+
+// C17: the attachments parked by the two copies are the same items under corresponding keys
+pub proof fn thm_c17_to_span_records_is_the_collector_path(ls: LocalSpansInner, t: TraceId, p: SpanId, a: Anchor)
+    ensures
+        post_recs(seq![CollV { set: SpanSet::LocalSpansInner(ls), trace_id: t, parent_id: p }], Map::empty(), a)
+            == mount_recs(amend_local_recs(ls.spans@, ls.end_time, t, p, a), amend_local_dm(ls.spans@, p, Map::empty(), a)),
+{
+    let c = CollV { set: SpanSet::LocalSpansInner(ls), trace_id: t, parent_id: p };
+    let cs = seq![c];
+    assert(cs.drop_last() =~= Seq::<CollV>::empty());
+    assert(cs.last() == c);
+    assert(colls_recs(cs.drop_last(), a) =~= Seq::<RecV>::empty());
+    assert(colls_dm(cs.drop_last(), Map::empty(), a) =~= Map::<SpanId, Seq<DangV>>::empty());
+    assert(colls_recs(cs, a) =~= amend_local_recs(ls.spans@, ls.end_time, t, p, a));
+}
+
+// C18: a record's duration is the (saturating) difference of the converted end and begin instants;
+// a local span still open when its set was collected ends at the collection time; an event carries
+// the conversion of the instant it was recorded at
+pub proof fn thm_c18_times(span: RawSpan, end_time: Instant, t: TraceId, p: SpanId, a: Anchor)
+    ensures
+        recv_of(span, local_end(span, end_time), t, p, a).begin == unix_ns(span.begin_instant, a),
+        recv_of(span, local_end(span, end_time), t, p, a).duration ==
+            sat_sub(unix_ns(if span.end_instant.ticks() == 0 { end_time } else { span.end_instant }, a), unix_ns(span.begin_instant, a)),
+        span.raw_kind == RawKind::Event ==> dang_of(span, a) == DangV::Event(span.name, unix_ns(span.begin_instant, a), opt_props(span.properties)),
+{}
+
+// C06: attaching a list of parked items appends their properties / events to that record in
+// arrival order and touches nothing else
+pub open spec fn dang_props(items: Seq<DangV>) -> Seq<(Cow<'static, str>, Cow<'static, str>)>
+    decreases items.len(),
+{
+    if items.len() == 0 { Seq::empty() } else {
+        dang_props(items.drop_last()) + (match items.last() { DangV::Properties(p) => p, DangV::Event(n, t, p) => Seq::empty() })
+    }
+}
+
+pub open spec fn dang_events(items: Seq<DangV>) -> Seq<(Cow<'static, str>, u64, Seq<(Cow<'static, str>, Cow<'static, str>)>)>
+    decreases items.len(),
+{
+    if items.len() == 0 { Seq::empty() } else {
+        match items.last() {
+            DangV::Event(n, t, p) => dang_events(items.drop_last()).push((n, t, p)),
+            DangV::Properties(p) => dang_events(items.drop_last()),
+        }
+    }
+}
+
+pub proof fn thm_c06_attachments_appended_in_order(r: RecV, items: Seq<DangV>)
+    ensures
+        attach(r, items).properties =~= r.properties + dang_props(items),
+        attach(r, items).events =~= r.events + dang_events(items),
+        same_identity(attach(r, items), r),
+    decreases items.len(),
+{
+    lemma_attach_identity(r, items);
+    if items.len() > 0 { thm_c06_attachments_appended_in_order(r, items.drop_last()); }
+}
+
+// C06: parking appends at the end of that key's list and leaves every other key alone
+pub proof fn thm_c06_parking_is_per_span_and_ordered(d: DMap, k: SpanId, item: DangV, k2: SpanId)
+    ensures
+        dm_park(d, k, item)[k] == dm_get(d, k).push(item),
+        k2 != k ==> dm_get(dm_park(d, k, item), k2) == dm_get(d, k2),
+{}
+
+// C06: a record takes the items parked under *its* span id and consumes the key; records with
+// other ids are not given them
+pub proof fn thm_c06_mounted_on_matching_span_only(recs: Seq<RecV>, d: DMap, r: RecV)
+    ensures
+        mount_recs(recs.push(r), d).last() == mount_step_rec(r, mount_dm(recs, d)),
+        !mount_dm(recs.push(r), d).contains_key(r.span_id),
+        forall|k: SpanId| k != r.span_id ==> (mount_dm(recs.push(r), d).contains_key(k) <==> mount_dm(recs, d).contains_key(k)),
+{
+    assert(recs.push(r).drop_last() =~= recs);
+}
